@@ -1058,7 +1058,8 @@ def small_atoms():
              "de.cl": {"k": "cl", "lemma": "en"},
              "loc.full": {"k": "pp", "prep": "dans", "arg": _np(4)}, "loc.pro": {"k": "pp", "prep": "dans", "arg": _np(4, pro=True)},
              "loc.cl": {"k": "cl", "lemma": "y"},
-             "oth.full": {"k": "pp", "prep": "avec", "arg": _np(5)}, "oth.pro": {"k": "pp", "prep": "avec", "arg": _np(5, pro=True)}}
+             "oth.full": {"k": "pp", "prep": "avec", "arg": _np(5)}, "oth.chez": {"k": "pp", "prep": "chez", "arg": _np(5)},
+             "oth.pro": {"k": "pp", "prep": "avec", "arg": _np(5, pro=True)}}
     for k, v in comps.items():
         atoms.append(("comp:" + k.split(".")[0], k, v))
     for k, v in (("neg", True), ("neg", "plus"), ("pas", True), ("prog", True), ("refl", True),
@@ -1185,7 +1186,7 @@ GENERAL = {"dir.full.f": "dir.full", "dir.full.p": "dir.full", "dir.pro.f": "dir
            "pro2s": None, "moi1s": "pro1s", "neg=plus": "neg=True"}
 FAMILY = {"int=woi": "int=IND", "int=wai": "int=IND", "int=whe": "int=IND", "int=whn": "int=IND",
           "int=wod": "int=OBJ", "int=wad": "int=OBJ", "int=wos": "int=SUBJ", "int=was": "int=SUBJ",
-          "a.full": "pp.full", "de.full": "pp.full", "loc.full": "pp.full", "oth.full": "pp.full",
+          "a.full": "pp.full", "de.full": "pp.full", "loc.full": "pp.full", "oth.full": "pp.full", "oth.chez": "pp.full",
           "a.pro": "pp.clitic", "a.cl1": "pp.clitic", "a.cl3": "pp.clitic", "de.pro": "pp.clitic", "de.cl": "pp.clitic",
           "loc.pro": "pp.clitic", "loc.cl": "pp.clitic",
           "dir.full": "dir", "dir.pro": "dir", "dir.cl1": "dir", "dir.cl3": "dir", "dir.full.f": "dir.agr", "dir.full.p": "dir.agr",
@@ -1196,7 +1197,7 @@ FAMILY = {"int=woi": "int=IND", "int=wai": "int=IND", "int=whe": "int=IND", "int
 
 def family_signature(labels, klass):
     """the signature of a root: its atoms abstracted to their family + the class of the first difference"""
-    iscomp = lambda l: l.split(".")[0] in ("dir", "a", "de", "loc", "oth")
+    iscomp = lambda l: l.split(".")[0] in ("dir", "a", "de", "loc", "oth")   # oth.chez: a locative preposition outside sur/vers/dans
     fam = sorted(FAMILY.get(l, l) for l in labels if not iscomp(l)) + [FAMILY.get(l, l) for l in labels if iscomp(l)]
     klass = re.sub(r"^(form|lemma|link):.*$", r"\1", klass)
     klass = re.sub(r"Pro\.(dat|acc|y|en)", "Pro.clitic", klass)
